@@ -1213,3 +1213,96 @@ Proof.
     destruct Hhd as [x Hx]. rewrite Hx. apply Hall.
 Qed.
 End PrepSem.
+(* ====================================================================================
+   Part E.  searchsorted against the dump end times: event e lands in dump k iff end_{k-1} < t_e <= end_k.
+   ==================================================================================== *)
+Lemma ss_left_mono a t1 t2 : t1 <= t2 -> (ss_left a t1 <= ss_left a t2)%nat.
+Proof.
+  intro H. induction a as [|x a IH]; simpl; [lia|].
+  destruct (x <? t1) eqn:E1; destruct (x <? t2) eqn:E2; lia.
+Qed.
+Lemma ss_left_le a t : (ss_left a t <= length a)%nat.
+Proof. induction a as [|x a IH]; simpl; [lia|]. destruct (x <? t); simpl; lia. Qed.
+
+(* consecutive elements (lo, hi) of a strictly increasing array a, position k *)
+Lemma ss_pairs a : ssorted a -> forall k lo hi, nth_error (combine a (tl a)) k = Some (lo, hi) ->
+  forall t, ((lo <? t) && (t <=? hi) = (ss_left a t =? S k)%nat) /\ ((t <=? lo) = (ss_left a t <=? k)%nat).
+Proof.
+  induction a as [|x a IH]; intros Hs k lo hi Hk t; [destruct k; discriminate|].
+  destruct a as [|y r]; [destruct k; discriminate|].
+  destruct Hs as [Hx Hs]. simpl tl in *.
+  destruct k as [|k].
+  - simpl in Hk. inversion Hk; subst. simpl. destruct (lo <? t) eqn:E1; destruct (hi <? t) eqn:E2; simpl; split; lia.
+  - change (nth_error (combine (y :: r) (tl (y :: r))) k = Some (lo, hi)) in Hk.
+    destruct (IH Hs k lo hi Hk t) as [I1 I2].
+    assert (Hlo : x < lo).
+    { apply nth_error_In in Hk. apply in_combine_l in Hk. rewrite Forall_forall in Hx. apply Hx. exact Hk. }
+    change (ss_left (x :: y :: r) t) with (if x <? t then S (ss_left (y :: r) t) else O).
+    destruct (x <? t) eqn:E.
+    + split; [rewrite I1|rewrite I2]; reflexivity.
+    + split; [|].
+      * replace (lo <? t) with false by lia. reflexivity.
+      * replace (t <=? lo) with true by lia. reflexivity.
+Qed.
+
+Lemma ss_left_full a : ssorted a -> a <> [] -> forall t d, (ss_left a t <? length a)%nat = (t <=? last a d).
+Proof.
+  induction a as [|x a IH]; intros Hs Hne t d; [congruence|]. destruct Hs as [Hx Hs].
+  destruct a as [|y r].
+  - simpl. destruct (x <? t) eqn:E; simpl; lia.
+  - assert (Hne' : y :: r <> []) by discriminate. specialize (IH Hs Hne' t x).
+    change (ss_left (x :: y :: r) t) with (if x <? t then S (ss_left (y :: r) t) else O).
+    rewrite last_cons. destruct (x <? t) eqn:E.
+    + simpl length in *. rewrite <- IH. reflexivity.
+    + assert (x < last r y).
+      { pose proof (last_in r y) as Hin. rewrite Forall_forall in Hx. apply Hx. exact Hin. }
+      rewrite (last_cons r y x). simpl length. replace (t <=? last r y) with true by lia. reflexivity.
+Qed.
+
+Lemma combine_map_l {A B C} (f : A -> C) (a : list A) (b : list B) :
+  combine (map f a) b = map (fun p => (f (fst p), snd p)) (combine a b).
+Proof. revert b. induction a as [|x a IH]; intros [|y b]; simpl; try reflexivity. f_equal. apply IH. Qed.
+
+Section SelDv.
+Variable D : Z -> Z.
+Let dvof (tv : list (Z * Z)) := map (fun p => (D (fst p), snd p)) tv.
+Lemma sel_indump tv f k : (forall t, f t = (D t =? k)) -> sel f tv = indump k (dvof tv).
+Proof.
+  intro H. unfold sel, indump, dvof. induction tv as [|[t v] tv IH]; [reflexivity|]. simpl. rewrite H.
+  destruct (D t =? k); simpl; rewrite IH; reflexivity.
+Qed.
+Lemma sel_before tv f k : (forall t, f t = (D t <? k)) -> sel f tv = before k (dvof tv).
+Proof.
+  intro H. unfold sel, before, dvof. induction tv as [|[t v] tv IH]; [reflexivity|]. simpl. rewrite H.
+  destruct (D t <? k); simpl; rewrite IH; reflexivity.
+Qed.
+Lemma existsb_dv (tv : list (Z * Z)) f g : (forall t, f t = g (D t)) ->
+  existsb (fun p => f (fst p)) tv = existsb (fun p => g (fst p)) (dvof tv).
+Proof.
+  intro H. unfold dvof. induction tv as [|[t v] tv IH]; [reflexivity|]. simpl. rewrite H, IH. reflexivity.
+Qed.
+End SelDv.
+
+Lemma existsb_combine_l {B} (f : Z -> bool) (a : list Z) (b : list B) : length a = length b ->
+  existsb f a = existsb (fun p => f (fst p)) (combine a b).
+Proof. revert b. induction a as [|x a IH]; intros [|y b] H; simpl in *; try discriminate; [reflexivity|]. rewrite (IH b) by lia. reflexivity. Qed.
+
+Lemma nondecr_weaken y x (l : list (Z * Z)) : y <= x -> nondecr x l -> nondecr y l.
+Proof. destruct l; [auto|]. intros H [H1 H2]. split; [lia|exact H2]. Qed.
+
+Lemma dv_nondecr a (ts : list Z) : forall (tvals : list Z) x, nondecrZ x ts ->
+  nondecr (Dmap a x) (combine (map (Dmap a) ts) tvals).
+Proof.
+  induction ts as [|t r IH]; intros tvals x H; [exact Logic.I|]. destruct tvals as [|v vr]; [exact Logic.I|].
+  destruct H as [H1 H2]. simpl. split.
+  - unfold Dmap. pose proof (ss_left_mono a x t H1). lia.
+  - apply IH. exact H2.
+Qed.
+
+Lemma map_nth_error_ext {A B} (F : A -> B) (G : nat -> B) (l : list A) : forall s,
+  (forall k x, nth_error l k = Some x -> F x = G (s + k)%nat) -> map F l = map G (seq s (length l)).
+Proof.
+  induction l as [|a l IH]; intros s H; [reflexivity|]. simpl. f_equal.
+  - rewrite (H O a eq_refl). f_equal. lia.
+  - apply IH. intros k x Hk. rewrite (H (S k) x Hk). f_equal. lia.
+Qed.
